@@ -197,7 +197,71 @@ func checkC15(ctx *core.Ctx, rep *core.Report) {
 	defCfg, _ := lint.GlobalRegistry().DefaultConfiguration()
 	cfgPath := filepath.Join(tmp, "default.toml")
 	_ = os.WriteFile(cfgPath, defCfg, 0o644)
-	cfg2 := "[e_rsa_fermat_factorization]\nRounds = 0\n\n[e_subj_orgunit_in_ca_cert]\nCrossCert = true\n"
+	// a non-default configuration: every option of every configurable lint (found by reflection) set to its first
+	// alternative value — and, for every configurable lint, a corpus object whose verdict CHANGES under it, so that a
+	// configuration the tool loads but does not hand to the registry it lints with cannot go unnoticed
+	cfg2 := ""
+	witness := map[string]bool{}
+	for _, cl := range discoverConfigurable() {
+		sec := ""
+		for _, f := range cl.Fields {
+			if av := altValues(f); len(av) > 0 {
+				sec += fmt.Sprintf("%s = %s\n", f.Name, tomlLit(av[0]))
+			}
+		}
+		if sec == "" {
+			continue
+		}
+		cfg2 += "[" + cl.Name + "]\n" + sec + "\n"
+	}
+	if c2, err := lint.NewConfigFromString(cfg2); err == nil {
+		for _, cl := range discoverConfigurable() {
+			if cl.Kind == seeds.OCSP {
+				continue
+			}
+			r0, e0 := lint.GlobalRegistry().Filter(lint.FilterOptions{IncludeNames: []string{cl.Name}})
+			r2, e2 := lint.GlobalRegistry().Filter(lint.FilterOptions{IncludeNames: []string{cl.Name}})
+			if e0 != nil || e2 != nil {
+				continue
+			}
+			r2.SetConfiguration(c2)
+			found := false
+			for i := range all {
+				if all[i].Kind != cl.Kind {
+					continue
+				}
+				o, err := zl.Parse(all[i].Kind, all[i].DER)
+				if err != nil {
+					continue
+				}
+				a, pa := zl.Lint(o, r0)
+				b, pb := zl.Lint(o, r2)
+				if pa != nil || pb != nil || a == nil || b == nil || a.Results[cl.Name] == nil || b.Results[cl.Name] == nil {
+					continue
+				}
+				if a.Results[cl.Name].Status != b.Results[cl.Name].Status {
+					dup := false
+					for _, x := range objs {
+						if x.Name == all[i].Name {
+							dup = true
+						}
+					}
+					if !dup {
+						objs = append(objs, all[i])
+					}
+					witness[all[i].Name] = true
+					found = true
+					break
+				}
+			}
+			if !found {
+				rep.Hole("no corpus object changes the verdict of configurable lint %s under the non-default configuration", cl.Name)
+			}
+		}
+	} else {
+		rep.InternalError("generated non-default configuration does not parse: %v", err)
+	}
+	rep.Add("g_configuration_sensitive_objects", int64(len(witness)))
 	cfg2Path := filepath.Join(tmp, "nondefault.toml")
 	_ = os.WriteFile(cfg2Path, []byte(cfg2), 0o644)
 
@@ -240,7 +304,7 @@ func checkC15(ctx *core.Ctx, rep *core.Report) {
 		}
 		for si, sel := range sels {
 			for ci, cfg := range []struct{ flag, text string }{{"", ""}, {cfgPath, string(defCfg)}, {cfg2Path, cfg2}} {
-				if ci > 0 && (si+oi)%3 != 0 {
+				if ci > 0 && (si+oi)%3 != 0 && !(ci == 2 && witness[s.Name]) {
 					continue
 				}
 				fo, _ := sel.opts()
@@ -260,7 +324,7 @@ func checkC15(ctx *core.Ctx, rep *core.Report) {
 						if !ctx.Mine(idx) {
 							continue
 						}
-						if ctx.Quick() && (int(idx)+mi)%2 == 1 && si > 0 {
+						if ctx.Quick() && (int(idx)+mi)%2 == 1 && si > 0 && !(ci == 2 && witness[s.Name] && mi == 0) {
 							continue // quick: every second (selection, mode) combination beyond the unfiltered run
 						}
 						var r cliRun
